@@ -1,17 +1,25 @@
 package props
 
 import (
+	"encoding/json"
 	"fmt"
+	"net/http"
+	"net/http/httptest"
 	"sort"
 	"strings"
 	"time"
 
+	"github.com/gorilla/mux"
 	"github.com/trustbloc/sidetree-core-go/pkg/api/operation"
 	"github.com/trustbloc/sidetree-core-go/pkg/api/protocol"
+	"github.com/trustbloc/sidetree-core-go/pkg/dochandler"
 	"github.com/trustbloc/sidetree-core-go/pkg/document"
+	"github.com/trustbloc/sidetree-core-go/pkg/processor"
+	restapi "github.com/trustbloc/sidetree-core-go/pkg/restapi/dochandler"
 
 	"verif/mc/fx"
 	"verif/mc/hx"
+	"verif/mc/ref/doc"
 	"verif/mc/ref/sidetree"
 )
 
@@ -204,6 +212,7 @@ func c06(r *hx.Run) {
 	}
 	e.run(r, checkHist("P"))
 	eu.run(r, checkHist("U"))
+	c06REST(r, pool, client)
 	r.Assumptions = append(r.Assumptions,
 		"'truncated history' for a version id = the published operations up to and including the referenced one in (time, number) order; for a version time = all operations (published or not) with transaction time <= T",
 		"a version time before the epoch precedes every operation and must therefore be an error")
@@ -222,4 +231,77 @@ func sidetreeOrder(placed []fx.Placed) []fx.Placed {
 		return a.Num < b.Num
 	})
 	return out
+}
+
+// c06REST drives the same cuts through the REST resolve handler (query parameters versionId / versionTime) over a real
+// DocumentHandler and requires the answer to agree with the processor-level historical view.
+func c06REST(r *hx.Run, pool *fx.Pool, client protocol.Client) {
+	const ns = "did:sidetree"
+	hists := [][]fx.Placed{
+		{{Op: pool.Get("C"), Time: 1, Num: 5, Published: true}, {Op: pool.Get("U01"), Time: 2, Num: 3, Published: true}, {Op: pool.Get("U12"), Time: 2, Num: 4, Published: true}, {Op: pool.Get("U23"), Time: 4, Num: 0, Published: true}},
+		{{Op: pool.Get("C"), Time: 1, Num: 0, Published: true}, {Op: pool.Get("R01"), Time: 3, Num: 0, Published: true}, {Op: pool.Get("V01"), Time: 3, Num: 1, Published: true}, {Op: pool.Get("D1"), Time: 5, Num: 0, Published: true}},
+	}
+	for hi, h := range hists {
+		var pub fx.SliceStore
+		for i := len(h) - 1; i >= 0; i-- { // reversed store order
+			pub = append(pub, h[i].Anchored(pool.Suffix))
+		}
+		proc := processor.New("verif", pub, client)
+		handler := dochandler.New(ns, nil, client, &recWriter{}, proc, fx.Metrics)
+		rh := restapi.NewResolveHandler(handler, fx.Metrics)
+		did := ns + ":" + pool.Suffix
+		get := func(query string) (*document.ResolutionResult, int) {
+			rw := httptest.NewRecorder()
+			req := mux.SetURLVars(httptest.NewRequest(http.MethodGet, "/identifiers/x"+query, nil), map[string]string{"id": did})
+			rh.Resolve(rw, req)
+			if rw.Code != http.StatusOK {
+				return nil, rw.Code
+			}
+			var res document.ResolutionResult
+			if err := json.Unmarshal(rw.Body.Bytes(), &res); err != nil {
+				return nil, -1
+			}
+			return &res, rw.Code
+		}
+		check := func(caseID, query string, opt document.ResolutionOption) {
+			if !r.Want(caseID) {
+				return
+			}
+			rm, err := proc.Resolve(pool.Suffix, opt)
+			res, code := get(query)
+			r.Eval()
+			r.State()
+			r.Trans(1)
+			r.Trace(1)
+			r.Nontrivial(caseID)
+			if (err == nil) != (code == http.StatusOK) {
+				r.Violation("rest-historical-status", caseID, fmt.Sprintf("history %v query %q: HTTP %d, processor error %v", placedDesc(h), query, code, err), nil)
+				return
+			}
+			if err != nil {
+				return
+			}
+			want := refProject(doc.Plain(map[string]interface{}(rm.Doc)).(map[string]interface{}), did, c19Opts{})
+			md := doc.Plain(res.DocumentMetadata).(map[string]interface{})
+			if canonOf(res.Document) != canonOf(want) || fmt.Sprint(md["versionId"]) != fmt.Sprint(nilIfEmpty(rm.VersionID)) {
+				r.Violation("rest-historical-view", caseID, fmt.Sprintf("history %v query %q: REST answer (versionId %v) differs from the processor's historical view (versionId %q)\n  rest: %s\n  want: %s",
+					placedDesc(h), query, md["versionId"], rm.VersionID, hx.Trunc(canonOf(res.Document), 400), hx.Trunc(canonOf(want), 400)), nil)
+			}
+		}
+		for _, pl := range h {
+			check(fmt.Sprintf("rest|%d|V=%s", hi, pl.Ref()), "?versionId="+pl.Ref(), document.WithVersionID(pl.Ref()))
+		}
+		check(fmt.Sprintf("rest|%d|V=unknown", hi), "?versionId=nope", document.WithVersionID("nope"))
+		for T := int64(-1); T <= 6; T++ {
+			ts := time.Unix(T, 0).UTC().Format(time.RFC3339)
+			check(fmt.Sprintf("rest|%d|T=%d", hi, T), "?versionTime="+ts, document.WithVersionTime(ts))
+		}
+		check(fmt.Sprintf("rest|%d|T=garbage", hi), "?versionTime=yesterday", document.WithVersionTime("yesterday"))
+		caseID := fmt.Sprintf("rest|%d|both", hi)
+		if r.Want(caseID) {
+			if _, code := get("?versionId=" + h[0].Ref() + "&versionTime=1970-01-01T00:00:02Z"); code != http.StatusBadRequest {
+				r.Violation("rest-both-parameters", caseID, fmt.Sprintf("versionId and versionTime together answered HTTP %d, want 400", code), nil)
+			}
+		}
+	}
 }
